@@ -54,6 +54,10 @@ pub struct Routing {
     pub response_reads: Vec<String>,
     /// functions through which customize_response maps the sub-messages
     pub response_calls: Vec<String>,
+    /// cosmwasm-std's real enums / structs (C17)
+    pub std: StdInfo,
+    /// parameter types of Router::execute / query / sudo
+    pub param_types: Vec<(String, Vec<String>)>,
 }
 
 fn pattern(p: &syn::Pat) -> (Pat, Vec<String>) {
@@ -359,7 +363,7 @@ fn extract_lift(contracts: &syn::File) -> Lift {
     l
 }
 
-pub fn extract_routing(app: &syn::File, contracts: &syn::File, problems: &mut Vec<String>) -> Routing {
+pub fn extract_routing(app: &syn::File, contracts: &syn::File, repo_src: &std::path::Path, problems: &mut Vec<String>) -> Routing {
     let mut exec = MatchFn::missing("execute", "impl CosmosRouter for Router: fn execute not found");
     let mut query = MatchFn::missing("query", "impl CosmosRouter for Router: fn query not found");
     let mut sudo = MatchFn::missing("sudo", "impl CosmosRouter for Router: fn sudo not found");
@@ -410,5 +414,311 @@ pub fn extract_routing(app: &syn::File, contracts: &syn::File, problems: &mut Ve
             (vec![], vec![])
         }
     };
-    Routing { exec, query, sudo, sudo_kinds, lift, response_reads, response_calls }
+    // cosmwasm-std facts are reported through cwstd_ok (not through `problems`: translation_ok keeps its meaning for C20)
+    let std = extract_std(repo_src, &["verif", "staking", "stargate", "cosmwasm_2_2"]);
+    let param_types = router_param_types(app);
+    Routing { exec, query, sudo, sudo_kinds, lift, response_reads, response_calls, std, param_types }
+}
+
+// ---------------------------------------------------------------------------------------------
+// cosmwasm-std (the version pinned by /repo/Cargo.lock): the REAL variant lists of CosmosMsg and
+// QueryRequest (with their cfg gates and field names) and the field lists of SubMsg / Response, so that
+// "for every kind" in Routing.v is checked against the enums the crate is compiled with, not against a
+// hand-written list.  Fail closed: anything not found => cwstd_ok := false.
+// ---------------------------------------------------------------------------------------------
+pub struct StdInfo {
+    pub ok: bool,
+    pub why: String,
+    /// e.g. "cosmwasm-std-2.2.2"
+    pub source: String,
+    /// features cosmwasm-std is compiled with by the harness (closure, including `default`)
+    pub features: Vec<String>,
+    /// (variant, cfg gates, field names: "0","1",.. for tuple variants)
+    pub cosmos_msg: Vec<(String, Vec<Cfg>, Vec<String>)>,
+    pub query_request: Vec<(String, Vec<Cfg>, Vec<String>)>,
+    pub submsg_fields: Vec<String>,
+    pub response_fields: Vec<String>,
+}
+
+fn features_table(cargo_toml: &std::path::Path) -> Option<std::collections::BTreeMap<String, Vec<String>>> {
+    let txt = std::fs::read_to_string(cargo_toml).ok()?;
+    let mut table = std::collections::BTreeMap::new();
+    let mut in_features = false;
+    let mut pending = String::new();
+    for line in txt.lines() {
+        let line = line.split('#').next().unwrap_or("").trim();
+        if line.starts_with('[') && pending.is_empty() {
+            in_features = line == "[features]";
+            continue;
+        }
+        if !in_features || line.is_empty() {
+            continue;
+        }
+        pending.push_str(line);
+        if pending.contains('[') && !pending.contains(']') {
+            continue;
+        }
+        let entry = std::mem::take(&mut pending);
+        if let Some((k, v)) = entry.split_once('=') {
+            let deps: Vec<String> = v
+                .trim()
+                .trim_start_matches('[')
+                .trim_end_matches(']')
+                .split(',')
+                .map(|x| x.trim().trim_matches('"').to_string())
+                .filter(|x| !x.is_empty())
+                .collect();
+            table.insert(k.trim().trim_matches('"').to_string(), deps);
+        }
+    }
+    if table.is_empty() {
+        None
+    } else {
+        Some(table)
+    }
+}
+
+fn only_cfg(attrs: &[syn::Attribute]) -> Vec<Cfg> {
+    let v: Vec<syn::Attribute> = attrs.iter().filter(|a| last_seg(a.path()) == "cfg").cloned().collect();
+    cfg_gates(&v)
+}
+
+fn field_names(f: &syn::Fields) -> Vec<String> {
+    match f {
+        syn::Fields::Unit => vec![],
+        syn::Fields::Unnamed(u) => (0..u.unnamed.len()).map(|i| i.to_string()).collect(),
+        syn::Fields::Named(n) => n.named.iter().map(|x| x.ident.as_ref().unwrap().to_string()).collect(),
+    }
+}
+
+pub fn extract_std(repo_src: &std::path::Path, harness_roots: &[&str]) -> StdInfo {
+    let mut s = StdInfo { ok: true, why: String::new(), source: String::new(), features: vec![], cosmos_msg: vec![], query_request: vec![], submsg_fields: vec![], response_fields: vec![] };
+    let fail = |s: &mut StdInfo, why: String| {
+        if s.ok {
+            s.ok = false;
+            s.why = why;
+        }
+    };
+    // 1. version from Cargo.lock
+    let repo = repo_src.join("..");
+    let lock = std::fs::read_to_string(repo.join("Cargo.lock")).unwrap_or_default();
+    let mut version: Option<String> = None;
+    let mut lines = lock.lines();
+    while let Some(l) = lines.next() {
+        if l.trim() == "name = \"cosmwasm-std\"" {
+            if let Some(v) = lines.next() {
+                version = v.trim().strip_prefix("version = \"").and_then(|x| x.strip_suffix('"')).map(|x| x.to_string());
+            }
+            break;
+        }
+    }
+    let version = match version {
+        Some(v) => v,
+        None => {
+            fail(&mut s, "cosmwasm-std not found in Cargo.lock".into());
+            return s;
+        }
+    };
+    s.source = format!("cosmwasm-std-{}", version);
+    // 2. the unpacked registry source
+    let mut roots: Vec<std::path::PathBuf> = vec![];
+    if let Ok(p) = std::env::var("VERIF_COSMWASM_STD") {
+        roots.push(p.into());
+    }
+    let cargo_home = std::env::var("CARGO_HOME").ok().map(std::path::PathBuf::from).or_else(|| std::env::var("HOME").ok().map(|h| std::path::PathBuf::from(h).join(".cargo")));
+    if let Some(ch) = cargo_home {
+        if let Ok(rd) = std::fs::read_dir(ch.join("registry/src")) {
+            let mut ds: Vec<_> = rd.filter_map(|e| e.ok()).map(|e| e.path().join(&s.source)).collect();
+            ds.sort();
+            roots.extend(ds);
+        }
+    }
+    let dir = match roots.into_iter().find(|d| d.join("Cargo.toml").is_file() && d.join("src").is_dir()) {
+        Some(d) => d,
+        None => {
+            let w = format!("source of {} not found under $CARGO_HOME/registry/src", s.source);
+            fail(&mut s, w);
+            return s;
+        }
+    };
+    // 3. features: what cw-multi-test's harness features switch on in cosmwasm-std, what the harness asks for
+    //    directly (same names), and `default`; closed under cosmwasm-std's own [features] table
+    let std_table = match features_table(&dir.join("Cargo.toml")) {
+        Some(t) => t,
+        None => {
+            fail(&mut s, "no [features] table in cosmwasm-std's Cargo.toml".into());
+            return s;
+        }
+    };
+    let mut todo: Vec<String> = vec!["default".into()];
+    if let Some(t) = features_table(&repo.join("Cargo.toml")) {
+        let mut seen = std::collections::BTreeSet::new();
+        let mut q: Vec<String> = harness_roots.iter().map(|x| x.to_string()).collect();
+        while let Some(f) = q.pop() {
+            if let Some(x) = f.strip_prefix("cosmwasm-std/") {
+                todo.push(x.to_string());
+                continue;
+            }
+            if f.contains('/') || f.starts_with("dep:") || !seen.insert(f.clone()) {
+                continue;
+            }
+            if let Some(ds) = t.get(&f) {
+                q.extend(ds.iter().cloned());
+            }
+        }
+    } else {
+        fail(&mut s, "cannot read the [features] table of the crate's Cargo.toml".into());
+    }
+    for r in harness_roots {
+        if std_table.contains_key(*r) {
+            todo.push(r.to_string());
+        }
+    }
+    let mut seen = std::collections::BTreeSet::new();
+    while let Some(f) = todo.pop() {
+        if f.contains('/') || f.starts_with("dep:") || !seen.insert(f.clone()) {
+            continue;
+        }
+        if let Some(ds) = std_table.get(&f) {
+            todo.extend(ds.iter().cloned());
+        }
+    }
+    s.features = seen.into_iter().collect();
+    // 4. the items
+    fn walk(d: &std::path::Path, out: &mut Vec<std::path::PathBuf>) {
+        if let Ok(rd) = std::fs::read_dir(d) {
+            let mut es: Vec<_> = rd.filter_map(|e| e.ok()).map(|e| e.path()).collect();
+            es.sort();
+            for p in es {
+                if p.is_dir() {
+                    walk(&p, out);
+                } else if p.extension().map(|x| x == "rs").unwrap_or(false) {
+                    out.push(p);
+                }
+            }
+        }
+    }
+    let mut files = vec![];
+    walk(&dir.join("src"), &mut files);
+    let mut found = [0usize; 4];
+    for p in files {
+        let txt = match std::fs::read_to_string(&p) {
+            Ok(t) => t,
+            Err(_) => continue,
+        };
+        if !(txt.contains("enum CosmosMsg") || txt.contains("enum QueryRequest") || txt.contains("struct SubMsg") || txt.contains("struct Response")) {
+            continue;
+        }
+        let file = match syn::parse_file(&txt) {
+            Ok(f) => f,
+            Err(e) => {
+                fail(&mut s, format!("cannot parse {}: {}", p.display(), e));
+                continue;
+            }
+        };
+        for it in &file.items {
+            match it {
+                syn::Item::Enum(e) if e.ident == "CosmosMsg" || e.ident == "QueryRequest" => {
+                    let vs: Vec<(String, Vec<Cfg>, Vec<String>)> = e.variants.iter().map(|v| (v.ident.to_string(), only_cfg(&v.attrs), field_names(&v.fields))).collect();
+                    if e.ident == "CosmosMsg" {
+                        s.cosmos_msg = vs;
+                        found[0] += 1;
+                    } else {
+                        s.query_request = vs;
+                        found[1] += 1;
+                    }
+                }
+                syn::Item::Struct(st) if st.ident == "SubMsg" || st.ident == "Response" => {
+                    let fs = field_names(&st.fields);
+                    if st.ident == "SubMsg" {
+                        s.submsg_fields = fs;
+                        found[2] += 1;
+                    } else {
+                        s.response_fields = fs;
+                        found[3] += 1;
+                    }
+                }
+                _ => {}
+            }
+        }
+    }
+    for (i, n) in ["enum CosmosMsg", "enum QueryRequest", "struct SubMsg", "struct Response"].iter().enumerate() {
+        if found[i] != 1 {
+            let w = format!("{} found {} times in {}", n, found[i], s.source);
+            fail(&mut s, w);
+        }
+    }
+    s
+}
+
+/// the parameter types of Router::execute / query / sudo as written in the source (roles are read off
+/// the TYPES, so renaming a parameter changes nothing)
+pub fn router_param_types(app: &syn::File) -> Vec<(String, Vec<String>)> {
+    let mut out = vec![];
+    for it in &app.items {
+        if let syn::Item::Impl(im) = it {
+            let is_router = im.trait_.as_ref().map(|(_, p, _)| last_seg(p) == "CosmosRouter").unwrap_or(false);
+            if is_router && type_last_seg(&im.self_ty) == "Router" {
+                for x in &im.items {
+                    if let syn::ImplItem::Fn(f) = x {
+                        let n = f.sig.ident.to_string();
+                        if n == "execute" || n == "query" || n == "sudo" {
+                            let tys: Vec<String> = f
+                                .sig
+                                .inputs
+                                .iter()
+                                .filter_map(|a| match a {
+                                    syn::FnArg::Typed(t) => Some(text(&*t.ty)),
+                                    _ => None,
+                                })
+                                .collect();
+                            out.push((n, tys));
+                        }
+                    }
+                }
+            }
+        }
+    }
+    out
+}
+
+impl StdInfo {
+    pub fn coq_section(&self, param_types: &[(String, Vec<String>)]) -> String {
+        use std::fmt::Write as _;
+        let mut o = String::new();
+        let vs = |l: &[(String, Vec<Cfg>, Vec<String>)]| coq_list(l, |(k, c, f)| format!("({}, {}, {})", cs(k), coq_list(c, |x| x.coq()), coq_list(f, |x| cs(x))));
+        writeln!(o, "\n(* ---------- cosmwasm-std as pinned by Cargo.lock: the real enums / structs (C17) ---------- *)").unwrap();
+        writeln!(o, "Definition cwstd_ok : bool := {}.", coq_bool(self.ok)).unwrap();
+        writeln!(o, "Definition cwstd_why : string := {}.", cs(&self.why)).unwrap();
+        writeln!(o, "Definition cwstd_source : string := {}.", cs(&self.source)).unwrap();
+        writeln!(o, "(* features cosmwasm-std is compiled with by the harness (closure over its own [features], `default` included) *)").unwrap();
+        writeln!(o, "Definition cwstd_features : list string := {}.", coq_list(&self.features, |x| cs(x))).unwrap();
+        writeln!(o, "(* (variant, cfg gates, fields: \"0\",\"1\",.. for tuple variants) in declaration order *)").unwrap();
+        writeln!(o, "Definition cosmos_msg_variants : list (string * list cfg * list string) := {}.", vs(&self.cosmos_msg)).unwrap();
+        writeln!(o, "Definition query_request_variants : list (string * list cfg * list string) := {}.", vs(&self.query_request)).unwrap();
+        writeln!(o, "Definition submsg_struct_fields : list string := {}.", coq_list(&self.submsg_fields, |x| cs(x))).unwrap();
+        writeln!(o, "Definition response_struct_fields : list string := {}.", coq_list(&self.response_fields, |x| cs(x))).unwrap();
+        writeln!(o, "(* types of the non-self parameters of Router::execute / query / sudo, as written *)").unwrap();
+        writeln!(
+            o,
+            "Definition router_param_types : list (string * list string) := {}.",
+            coq_list(param_types, |(n, t)| format!("({}, {})", cs(n), coq_list(t, |x| cs(x))))
+        )
+        .unwrap();
+        o
+    }
+    pub fn json_section(&self) -> String {
+        let vs = |l: &[(String, Vec<Cfg>, Vec<String>)]| {
+            format!("[{}]", l.iter().map(|(k, c, f)| format!("[{}, {}, {}]", json_str(k), json_str(&coq_list(c, |x| x.coq())), json_str(&f.join(",")))).collect::<Vec<_>>().join(", "))
+        };
+        format!(
+            " \"cosmwasm_std\": {{\"ok\": {}, \"why\": {}, \"source\": {}, \"features\": [{}], \"cosmos_msg\": {}, \"query_request\": {}}},",
+            self.ok,
+            json_str(&self.why),
+            json_str(&self.source),
+            self.features.iter().map(|x| json_str(x)).collect::<Vec<_>>().join(", "),
+            vs(&self.cosmos_msg),
+            vs(&self.query_request)
+        )
+    }
 }
